@@ -425,7 +425,9 @@ META = dict(
                "VAR objects is not claimed (the library ignores it).",
     bounds=dict(quick="all index / sub-index values; payload lengths 0..9; 4 download styles; toggle error on the first or "
                       "second segment in both directions; unknown ccs 7 with all low bits, block-download initiate with "
-                      "symbolic multiplexer; 3 history positions; abort injected at every step of 3 client transfers",
+                      "symbolic multiplexer; 5 pre-states (none, upload, download, written siblings, a download left open) with "
+                      "a late segment after the refusal; continuation after a toggle error; arrays with ro/wo/const elements "
+                      "(members created on demand); abort injected at every step of 3 client transfers",
                 thorough="same with all (length, style) combinations in every history position"),
     outside_bounds=["object dictionaries other than the harness dictionary (the lookup code is uniform in the entries)",
                     "sub-index != 0 on VAR objects", "refusals in the middle of block transfers"],
